@@ -231,7 +231,27 @@ def run_component(name, pid, seed):
         res = LAOStar(heuristic=lambda s: h[s], seed=seed, randomize_action_order=rao,
                       randomize_nextstate_order=rno).plan_on(mdp)
         pol = {s: dict(res.policy.action_dist(s).items()) for s in res.solution_graph.states_to_nodes}
-        return dict(iv=res.initial_value, it=res.iterations, v=res.state_value_map, pol=pol)
+        # downstream use of the returned policy at states OFF the solution graph: the order in which it lists the actions and
+        # equally seeded roll-outs from there (a uniform distribution samples by position)
+        off = [s for s in sp.states if s not in res.solution_graph.states_to_nodes and s not in sp.flag]
+        off_order = {s: list(res.policy.action_dist(s).support) for s in off}
+        off_runs = []
+        for s in off[:3]:
+            sim = res.policy.run_on(mdp, initial_state=s, rng=random.Random(seed), max_steps=12)
+            off_runs.append(list(sim.action))
+        # ... and on a unit-cost twin of the problem with the zero heuristic, where every action ties off the solution graph
+        import copy as _copy
+        from mon.gen import build as Bd_
+        sp1 = _copy.deepcopy(sp)
+        for k_ in sp1.R:
+            sp1.R[k_] = -1.0
+        mdp1 = Bd_.SpecMDP(sp1)
+        res1 = LAOStar(heuristic=lambda s: 0.0, seed=seed, randomize_action_order=rao, randomize_nextstate_order=rno).plan_on(mdp1)
+        off1 = [s for s in sp1.states if s not in res1.solution_graph.states_to_nodes and s not in sp1.flag]
+        tie_order = {s: list(res1.policy.action_dist(s).support) for s in off1}
+        tie_runs = [list(res1.policy.run_on(mdp1, initial_state=s, rng=random.Random(seed), max_steps=12).action) for s in off1[:3]]
+        return dict(iv=res.initial_value, it=res.iterations, v=res.state_value_map, pol=pol, off_order=off_order, off_runs=off_runs,
+                    tie_order=tie_order, tie_runs=tie_runs, off_states=len(off), tie_states=len(off1))
     if name == "lrtdp":
         from msdm.algorithms import LRTDP
         k = (SEEDS_THOROUGH.index(seed) + PROBLEMS_THOROUGH.index(pid)) % 2
@@ -346,7 +366,15 @@ def run_component(name, pid, seed):
         base_ = ImplicitDistribution(fn, 30, _seed=seed)
         twins_ = [_copy.copy(base_), _copy.copy(base_)]
         drawn_ = [[d_.sample() for _ in range(3)] for d_ in [base_] + twins_]
-        return dict(copies_agree=(drawn_[0] == drawn_[1] == drawn_[2]), copies_first=drawn_[0],
+        # finite distributions over MANY events (40-300), sampled with a caller-supplied generator
+        from msdm.core.distributions import DictDistribution, UniformDistribution, SoftmaxDistribution
+        r_ = random.Random(f"C13-wide-{pid}-{seed}")
+        nw = r_.choice([33, 40, 70, 300])
+        wts = [r_.randint(1, 9) for _ in range(nw)]
+        wide = [DictDistribution({("e", i): w / sum(wts) for i, w in enumerate(wts)}), UniformDistribution([("u", i) for i in range(nw)]),
+                SoftmaxDistribution({("s", i): float(w) for i, w in enumerate(wts)})]
+        wide_draws = [[d_.sample(rng=random.Random(seed + j)) for j in range(4)] for d_ in wide]
+        return dict(copies_agree=(drawn_[0] == drawn_[1] == drawn_[2]), copies_first=drawn_[0], wide=wide_draws,
                     items=dict(ImplicitDistribution(fn, 30, _seed=seed).items()),
                     exp=ImplicitDistribution(fn, 30, _seed=seed).expectation(lambda e: e[1]),
                     marg=dict(ImplicitDistribution(fn, 30, _seed=seed).marginalize(lambda e: e[0]).items()),
